@@ -53,6 +53,9 @@ Definition cev_eqb (a b : cev) : bool :=
   | EvHeaderRet c x, EvHeaderRet d y => Nat.eqb c d && hres_eqb x y
   | EvTrailerRet c x, EvTrailerRet d y => Nat.eqb c d && opt_eqb Z.eqb x y
   | EvPanic c, EvPanic d => Nat.eqb c d
+  | EvRead x t, EvRead y u => env_eqb x y && opt_eqb Nat.eqb t u
+  | EvTake c x, EvTake d y => Nat.eqb c d && env_eqb x y
+  | EvDrop c x, EvDrop d y => Nat.eqb c d && env_eqb x y
   | _, _ => false
   end.
 
@@ -131,6 +134,9 @@ Definition cev_code (e : cev) : list Z :=
   | EvHeaderRet c r => 8 :: Z.of_nat c :: match r with inl m => 0 :: mdv_code (Some m) | inr x => 1 :: cerr_code x end
   | EvTrailerRet c r => 9 :: Z.of_nat c :: optZ_code r
   | EvPanic c => [10; Z.of_nat c]
+  | EvRead x t => 11 :: match t with None => [0] | Some c => [1; Z.of_nat c] end ++ env_code x
+  | EvTake c x => 12 :: Z.of_nat c :: env_code x
+  | EvDrop c x => 13 :: Z.of_nat c :: env_code x
   end.
 Fixpoint lex_leb (a b : list Z) : bool :=
   match a, b with
@@ -155,7 +161,9 @@ Definition react_all (s : state) (a : act) : option (list state) :=
   explore state_eqb (int_succs (length (log s))) 20000 [s1] [s1] [].
 
 (* ---- what the model predicts at a quiescent point ---- *)
-Definition is_unhandled (e : cev) : bool := match e with EvUnhandled _ => true | _ => false end.
+(* not observed on the real code: the log line of an unhandled id and the ghost events *)
+Definition is_unhandled (e : cev) : bool :=
+  match e with EvUnhandled _ | EvRead _ _ | EvTake _ _ | EvDrop _ _ => true | _ => false end.
 
 Fixpoint pending_from (n : nat) (ks : list call) : list (Z * Z) :=
   match ks with
